@@ -38,6 +38,10 @@ INFO = {
  'C15b': ("a merge made while the handler's drain is finishing is never delivered (until some later merge/resume/cancel)", "the merger's RMW on ds_pending_data and its load of dq_state both fall between the drainer's last load of ds_pending_data (0) and its unlock cmpxchg, and no further merge follows: merge_data no longer passes MAKE_DIRTY for a drain-locked source"),
  'C18b': ("inside a dispatch_sync / dispatch_barrier_sync item dispatch_get_specific misses keys of the submitted-to queue (or returns the lower queue's value) and dispatch_assert_queue(top) aborts", "hierarchy top -> mid -> root, synchronous submission to top while top is free and mid is drain-locked by another thread: the woken waiter runs its item with the frame of the queue it waited on instead of the queue it was submitted to"),
  'C03b': ("an item submitted with dispatch_sync / dispatch_barrier_sync runs concurrently with items of sibling queues of a workloop-bottomed hierarchy; the workloop's state is corrupted afterwards (hang, 'waking up an inactive workloop' crash)", "bottom of the hierarchy is a workloop, a contended (slow path) sync on a queue that targets the workloop directly: the queue's role is computed as BASE_ANON instead of INNER because workloops carry the BASE type flag"),
+ 'C01c': ("items accepted by a non-overcommit global queue are never invoked once every pool thread is blocked (or after the workers idled out)", "the pool of a non-overcommit root queue is at capacity when a poke arrives with no worker parked: the 'pool is full' return no longer gives the claimed dgq_pending request back, so every later request for a worker (monitor rescue, exiting worker's re-poke) is refused as 'still pending'"),
+ 'C14c': ("a read handler invocation receives more than the high-water mark", "low-water mark above the I/O chunk size and a high-water mark between the chunk size and buffered + chunk size, with one kernel read taking the operation from below low water to above high water (regular files; bursts on pipes): the read size is clamped to the chunk size before the held-back bytes are subtracted"),
+ 'C16c': ("the cancellation handler is never invoked (and the descriptor stays monitored)", "dispatch_source_cancel from a thread that is neither the handler nor on the target queue while another thread is inside the source's invoke past its last flags load: the cancel wake-up no longer passes MAKE_DIRTY, and no later event arrives"),
+ 'C17c': ("a queue is finalised and freed (or traps as over-released) while the application still holds references and another queue targets it", "a dispatch_block_create block running asynchronously on the queue while another thread calls dispatch_block_wait on it exactly as the execution ends: the invoke side takes the block's +2 on the queue with load + store instead of an exchange, so both sides release it"),
  'C19': ("a dispatch_block_cancel that has returned is undone: testcancel reports 0 and the body runs", "another thread cancels while a timed dispatch_block_wait is in progress and that wait then times out: the time-out path writes back the flag word it read on entry instead of clearing only its own bit"),
 }
 V = '/verif'
